@@ -233,10 +233,15 @@ Fixpoint split_close (l : list gev) : option (list gev * list gev) :=
   | x :: r => match split_close r with Some (a, b) => Some (x :: a, b) | None => None end
   end.
 
-Definition holds_runner (c : agent_cfg) (o : outcome Z * list gev) : bool :=
+(* the scripted agent of the harness asks for the stop once its script is over and gives up after `runner_extra`
+   further calls: scripts that queue more `false` signals than that are outside the statement *)
+Definition runner_pre (pre : list bool) (w : list witem) : bool := (length pre + sig_total w + 2 <=? runner_extra)%nat.
+
+Definition holds_runner (c : agent_cfg) (pre : list bool) (w : list witem) (o : outcome Z * list gev) : bool :=
+  if negb (runner_pre pre w) then true else
   match o with
   | (Ok _, GStart :: ev) =>
-      let ev1 := match ev, a_start_err c with GErr :: r, true => Some r | _, true => None | _, false => Some ev end in
+      let ev1 := if a_start_err c then match ev with GErr :: r => Some r | _ => None end else Some ev in
       match ev1 with
       | Some l => match split_close l with
                   | Some (body, tail) => body_ok body
